@@ -174,11 +174,11 @@ def _reduce_cs(p):
 def run(ctx):
     from ..shared import group_loop_rule as _group_loop_rule
 
-    _group_loop_rule(ctx, "R9.12", scope=lambda f, _s=("EasyFEA.Simulations._simu", "EasyFEA.Simulations._beam", "EasyFEA.FEM._mesh"): f.module.name.startswith(_s), min_instances=5)
-    gauss_coordinates_order_rule(ctx)
+    ctx.attempt(_group_loop_rule, ctx, "R9.12", scope=lambda f, _s=("EasyFEA.Simulations._simu", "EasyFEA.Simulations._beam", "EasyFEA.FEM._mesh"): f.module.name.startswith(_s), min_instances=5)
+    ctx.attempt(gauss_coordinates_order_rule, ctx)
     from ..shared import state_alias_rule as _state_alias_rule
 
-    _state_alias_rule(ctx, "R9.10", scope=lambda f, _s=("EasyFEA.FEM._group_elem", "EasyFEA.FEM._mesh", "EasyFEA.Simulations._simu", "EasyFEA.Simulations._beam"): f.module.name.startswith(_s), min_instances=50)
+    ctx.attempt(_state_alias_rule, ctx, "R9.10", scope=lambda f, _s=("EasyFEA.FEM._group_elem", "EasyFEA.FEM._mesh", "EasyFEA.Simulations._simu", "EasyFEA.Simulations._beam"): f.module.name.startswith(_s), min_instances=50)
     repo = ctx.repo
     ctx.level = "other"
     ctx.explanation = (
